@@ -2,8 +2,11 @@
 # usage: seedtest.sh <patch> <prop> [tier] -- applies a seeded patch to /repo, runs one check, reverts.
 P=$1; ID=$2; TIER=${3:-quick}
 git -C /repo apply "$P" || { echo "patch does not apply"; exit 3; }
+# the evidence file describes runs on the unchanged tree: keep it
+cp /verif/evidence/$ID.json /tmp/seedtest.evidence.$$ 2>/dev/null
 cd /verif && timeout 1100 ./check $ID $TIER > /tmp/seedtest.out 2>&1; RC=$?
 git -C /repo checkout -- .
+[ -f /tmp/seedtest.evidence.$$ ] && mv /tmp/seedtest.evidence.$$ /verif/evidence/$ID.json
 grep -E "^VIOLATION|^KNOWN|^BROKEN|^INCONCLUSIVE|^UNCONFIRMED|^check " /tmp/seedtest.out | cut -c1-220 | head -12
 grep -E "^  harness=" /tmp/seedtest.out | cut -c1-200 | sort | uniq -c | head -6
 echo "exit=$RC"
